@@ -157,16 +157,11 @@ theorem startCons_iff (m : Style) : StartCons m → StartConsistent m := by
     e 12 (by omega), e 14 (by omega), e 16 (by omega)]
   exact h
 
-/-- **style_consistent (partial)**: for every document, schedule and limit, every token a
-`Decoder` returns — real or virtual — carries a style in which each block directive bit and
-each span *start* bit comes with its style bit.
-
-Full statement (not proved here): also `SpanXEnd → SpanX` for the four span kinds.  That
-part needs "the span stack never holds the same directive twice", which follows only from
-the look-ahead discipline of `scanSpan` over the rest of the line (an invariant relating
-the state to the unread input); it is checked by the oracle on every generated case
-(`style-consistent`, `bracketing|style-without-span`). -/
-theorem C17_style_consistent_partial (limit : Option Nat) (sch : Schedule) (doc : Bytes) :
+/-- **style_consistent, block and start bits, any token limit**: for every document, schedule
+and limit, every token a `Decoder` returns — real or virtual — carries a style in which each
+block directive bit and each span *start* bit comes with its style bit.  (The end bits need
+the unread-input invariant: `C17_style_consistent` below.) -/
+theorem C17_style_consistent_start (limit : Option Nat) (sch : Schedule) (doc : Bytes) :
     ∃ evs, (decode limit sch doc).1 = some evs ∧ ∀ e ∈ evs, StartConsistent e.style := by
   have hinv := scanDoc_inv limit sch doc
   have hsome := events_isSome 0 (scanDoc limit sch doc).1 (fun x hx => (hinv x hx).1)
@@ -205,15 +200,14 @@ theorem C17_style_consistent_partial (limit : Option Nat) (sch : Schedule) (doc 
 
 example : StartConsistent (SpanStrong ||| SpanStrongStart) := by unfold StartConsistent Has; decide
 
-/-- **style_consistent, end bits (partial: per call, under the no-duplicate hypothesis)**:
+/-- **style_consistent, end bits, one call** (the whole-run form is `C17_style_consistent`;
+the no-duplicate hypothesis is established there by the unread-input invariant):
 when `scanSpan` runs on a decoder whose directive bits have been cleared (what `scan` does at
 entry — `Clean`), whose open spans all have their style bit set and not scheduled for clearing
 (`StackOK`), and whose span stack holds no directive twice, then after the call every span
 *end* bit comes with its style bit (bits 11/13/15/17 ⇒ 2/3/4/5) and `StackOK` still holds.
-What is not proved is that the stack never holds a directive twice (it follows from the
-look-ahead over the unread rest of the line); the oracle checks the consequence on the real
-code for every generated case. -/
-theorem C17_style_consistent_end_partial (lv : Level) (data : Bytes) (atEOF : Bool)
+-/
+theorem C17_style_consistent_end_call (lv : Level) (data : Bytes) (atEOF : Bool)
     (hc : Clean lv) (hs : StackOK lv) (hn : lv.spanStack.Nodup) :
     EndCons (scanSpan lv data atEOF).2.mask ∧ StackOK (scanSpan lv data atEOF).2 :=
   scanSpan_endCons data atEOF hc hs hn
@@ -386,7 +380,7 @@ bit (block and span) comes with its style bit. -/
 theorem C17_style_consistent (sch : Schedule) (doc : Bytes) :
     ∃ evs, (decode none sch doc).1 = some evs ∧
       ∀ e ∈ evs, StartConsistent e.style ∧ EndConsistent e.style := by
-  obtain ⟨evs, hevs, hstart⟩ := C17_style_consistent_partial none sch doc
+  obtain ⟨evs, hevs, hstart⟩ := C17_style_consistent_start none sch doc
   refine ⟨evs, hevs, ?_⟩
   have hall : ∀ x ∈ (scanDoc none sch doc).1, LvGood x.2.lv ∧ ∀ q ∈ x.2.inner, LvGood q := by
     have hb := (C17_bracketing sch doc).1
